@@ -214,6 +214,7 @@ void run_datagram_(Ctx &c, vh::Rng &r, const c15gen::Dg &dg, const std::string &
     if (memcheck) pa = r.below(3);   // small garbage counts: under valgrind a 65535-round loop of the unfixed reader costs seconds
     std::string outcome[2];
     bool risky = false, foreign = false;
+    bool names_own_lookup[2] = {false, false};   // does the datagram's id field equal the id of the lookup issued for this run?
     for (int run = 0; run < 2; ++run) {
         int uid = c.request(domain);
         uint16_t id = c.lk[uid].id;
@@ -223,6 +224,7 @@ void run_datagram_(Ctx &c, vh::Rng &r, const c15gen::Dg &dg, const std::string &
             if (d == 0) d = 77;
             c15gen::set16(b, 0, (id + d) & 0xffff);
         } else if (!dg.keep_id) c15gen::set16(b, 0, id);
+        names_own_lookup[run] = b.size() >= 2 && c15ref::rd16(b.data()) == id;
         // the id bytes are part of what a pointer into the header reads, so each run is classified on its own bytes
         int depth = c15ref::chain_depth(b.data(), b.size());
         risky = depth > 16;
@@ -282,6 +284,9 @@ void run_datagram_(Ctx &c, vh::Rng &r, const c15gen::Dg &dg, const std::string &
     }
     // a datagram that completed (or counted against) a background lookup changed the state the other run saw
     if (foreign) { vh::counter("differential_skipped_named_a_background_lookup"); return; }
+    // a datagram that keeps its own id bytes (random bytes, kept-id classes) can by coincidence carry the id of the lookup of
+    // one run and not of the other (ids advance between the runs): then the two runs did not see the same situation
+    if (names_own_lookup[0] != names_own_lookup[1]) { vh::counter("differential_skipped_id_matched_in_one_run_only"); return; }
     // a pointer that lands on the id field makes the parse depend on the lookup's id, which differs between the runs
     for (size_t o = 0; o + 1 < dg.b.size(); ++o)
         if ((dg.b[o] & 0xc0) == 0xc0 && ((size_t(dg.b[o] & 0x3f) << 8) | dg.b[o + 1]) < 2) { vh::counter("differential_skipped_pointer_to_id"); return; }
